@@ -39,4 +39,56 @@ PROPS = {
         technique="Kani/CBMC proofs of ghost-trace I/O contracts on the real DiskIO functions (staged copy of the crate, syscalls stubbed to a trace, one symbolic failing call)",
         level_text="Per-function contracts on the real DiskIO mutators, checked by Kani/CBMC for all generations/slots/sectors and every position of one failing write or fsync: Ok implies every write was followed by a successful fsync; Err leaves in-memory journal positions unchanged; a failed retirement poisons the handle and every later write/flush/journal call is refused without touching the device. Harnesses with a loop are bounded and labelled so. Only the DiskIO layer is decided; the write-buffer reaction to errors is not.",
     ),
+    "C10": dict(
+        units=[("verus", "record_codec", ["parse_record", "record_header_size", "total_size", "value_offset", "sector_holds_record", "lemma"]),
+               ("kani", "crc_token", None), ("kani", "retirement_marker", None), ("kani", "metadata", None)],
+        assumptions=["A1", "A3", "A5", "A9", "A10"],
+        not_decided=["'an independent reader finds exactly the live keys after flush' needs the whole flush pipeline (process_write_batch: DESIGN U10)",
+                     "golden files of the released format: none exist offline; the layout statements in vx/*/spec.rs and kx/*.harness.rs are a frozen transcription of the documented layout",
+                     "the record ENCODER (serialize_record_into / prepare_record_data) and the allocation-journal image: units not built yet in this session",
+                     "metadata counters equal to live totals (store-level)"],
+        technique="Verus contracts on the real record decoders + Kani proofs of token/marker/metadata codecs against independent layout statements",
+        level_text="Each on-disk encoding within reach is pinned to an independent statement of the documented layout: the v1 and v2/v3 record decoders and the head-identity check (Verus, unbounded in key and buffer length), the record/marker token formula and its recovery-side twin, the retirement marker bytes, the metadata block (offsets, checksum coverage, generation, primary/backup alternation) (Kani, complete for fixed-size codecs, bounded where labelled). Encoder and decoder are each compared with the layout, not with each other, so a symmetric change fails.",
+    ),
+    "C17": dict(
+        units=[("verus", "record_codec", ["parse_record", "sector_holds_record", "validate_device_size"]),
+               ("kani", "metadata", ["metadata_from_bytes_contract", "read_metadata_selection"]),
+               ("kani", "crc_token", ["header_range_contract_v1", "header_range_contract_v2", "record_seq_token_spec"]),
+               ("kani", "retirement_marker", ["complete_retirement_block_contract", "journal_overlaps_contract"])],
+        assumptions=["A2", "A5", "A9", "A10"],
+        not_decided=["the scan loop itself (scan_and_rebuild_indexes): its progress argument, arithmetic on attacker-controlled lengths and strict v3 rejections are inline next to hash-table calls (DESIGN F5)",
+                     "decode/decode_slot of the allocation journal and RecoveryScanner::{block,visit_blocks,fill_at}: units not built yet in this session",
+                     "'a store that does open answers every call without panicking' (store level)",
+                     "'rejected without being modified' for non-FeOx files (file-system protocol in persistence.rs)"],
+        technique="Verus (no-panic/overflow/bounds obligations on the real decoders for arbitrary bytes) + Kani complete proofs for fixed-size decoders",
+        level_text="Totality of the decoders that recovery applies to untrusted bytes: for ANY byte slice the record parsers, the head-identity check, header_range, the marker check and the metadata decoder neither panic, overflow nor index out of bounds, and accept only what the layout allows; device sizes are accepted iff in range and block-aligned. Verus discharges bounds and overflow obligations for unbounded lengths; Kani covers the fixed-size decoders completely.",
+    ),
+    "C03": dict(
+        units=[("kani", "crc_token", None), ("kani", "metadata", None), ("kani", "retirement_marker", None), ("kani", "io_ordering", None)],
+        assumptions=["A1", "A2", "A3", "A8", "A9", "A10"],
+        not_decided=["sufficiency: the argument that these obligations imply the property is written in DESIGN.md §4, not machine-checked",
+                     "the scan loop's winner selection and len() bookkeeping; 4 KiB sector atomicity; collision freedom of a 16-bit token",
+                     "journal slot selection (decode): unit not built yet in this session",
+                     "process_write_batch's publication order (DESIGN U10)"],
+        technique="Kani proofs of the necessary per-function obligations (token binding, newest-valid metadata, journal->data->fsync->clear ordering with ghost I/O trace)",
+        level_text="Necessary mechanism obligations only: the record token is fold(CRC32C(le64(landing sector) ++ extent with the token field zeroed)), never 0, and recovery recomputes the same value; the metadata reader picks the newest valid copy and the writer never overwrites the copy holding the last durable generation; every retirement is journal(intent) -> fsync -> markers -> clear -> fsync with the journal position advanced only after its fsync; marker bytes and their acceptance test agree.",
+    ),
+    "C04": dict(
+        units=[("kani", "io_ordering", ["replay_journal_ordering", "retire_extents_ordering", "retire_unjournaled_covers_extent", "journal_clear_ordering", "journal_position_contract"]),
+               ("kani", "retirement_marker", None)],
+        assumptions=["A2", "A3", "A8", "A9", "A10"],
+        not_decided=["that the extents recovery chooses belong to no live record (inline in the scan loop); winner determinism",
+                     "decoded journal extents in bounds and disjoint (decode_slot): unit not built yet in this session"],
+        technique="Kani proofs: replay order (markers, fsync, clear last), marker determinism, writes confined to the given extents",
+        level_text="Necessary obligations for restartable recovery: journal replay writes markers first and clears the journal last, so a crash before the clear re-runs the same writes; marker bytes are a pure function of (sector, remaining) so a re-run rewrites identical bytes; marker writes cover exactly the given extent; post-scan retirement goes through the journaled transaction.",
+    ),
+    "C05": dict(
+        units=[("verus", "free_space", None), ("verus", "record_codec", ["total_size", "record_header_size", "value_offset"])],
+        assumptions=["A3", "A5", "A6", "A8"],
+        not_decided=["that the engine releases each retired extent exactly once and only after its markers are durable (process_deletions / failed-batch cleanup ordering)",
+                     "recovery's gap reconstruction; persisted counters",
+                     "that writer, reader, retirer and recovery all call total_size(..).div_ceil(4096) (visible in the source, A8)"],
+        technique="Verus: allocator contracts over the free-set view + the single extent-length formula",
+        level_text="Free-pool half: the allocator only hands out blocks of the free set, removes exactly those, never leaves the data area; a release is accepted iff in bounds, unreserved and disjoint from the free set, adds exactly that range and changes nothing on rejection; runs are always fully coalesced, so releasing everything restores the fresh single-run state (lemma_full_is_single_run). Extent length: total_size == header + value length for both formats.",
+    ),
 }
